@@ -581,12 +581,20 @@ function describeObjectMember(
   key: string,
   value: Runtype,
 ): { docText?: string; member: string } {
+  return describeMember(ctx, /^[A-Za-z_$][A-Za-z0-9_$]*$/.test(key) ? key : JSON.stringify(key), value);
+}
+
+function describeMember(
+  ctx: DescribeContext,
+  printedKey: string,
+  value: Runtype,
+): { docText?: string; member: string } {
   const optionalMark = value instanceof OptionalFieldRuntype ? "?" : "";
   const description = value.describe(ctx);
 
   return {
     docText: description.docText,
-    member: `${key}${optionalMark}: ${description.typeExpr}`,
+    member: `${printedKey}${optionalMark}: ${description.typeExpr}`,
   };
 }
 
@@ -595,7 +603,7 @@ function describeIndexObjectMember(
   key: Runtype,
   value: Runtype,
 ): { docText?: string; member: string } {
-  return describeObjectMember(ctx, `[K in ${describeTypeExpr(ctx, key)}]`, value);
+  return describeMember(ctx, `[K in ${describeTypeExpr(ctx, key)}]`, value);
 }
 
 function renderObjectMember(member: { docText?: string; member: string }): string {
